@@ -30,7 +30,7 @@ Findings on the current tree (open, see known_findings.d/C02.json + findings_inb
   new raise Finish whose implicit finish() asserts (204/304/1xx + buffered chunk): request never answered.
 With the three proposed patches applied to a scratch copy the check is quiet with zero excluded cases.
 
-Sensitivity (quick tier, seed 1, each mutant applied alone to a scratch copy of tornado/; all 12 caught):
+Sensitivity (quick tier, seed 1, each mutant applied alone to a scratch copy of tornado/; all 13 caught):
   http1connection.write_headers: `_chunking_output` ignoring HEAD            -> C02.not_well_framed
   http1connection._format_chunk: over-length guard removed                   -> C02.aborted_response_bytes
   http1connection.finish: terminating zero-length chunk omitted              -> C02.not_well_framed
@@ -43,6 +43,11 @@ Sensitivity (quick tier, seed 1, each mutant applied alone to a scratch copy of 
   web.set_status: reason-phrase check removed                                -> C02.etag (injected header block)
   web.write: write-after-finish allowed                                      -> C02.not_well_framed
   http1connection.write_headers: 204 allowed to be chunked                   -> C02.not_well_framed
+  http1connection.write_headers: 205 added to the no-chunking and close-delimited exemptions but not to the
+      body-refusing statuses (streamed 205 body undelimited, connection open)   -> C02.close_delimited_body_but_connection_stays_open
+      (found by independent mutation testing and MISSED before the status pool was widened: 205 and other
+      unusual body-capable codes were hardly ever combined with flush-before-finish; the dedicated template
+      now catches it at seeds 1, 2, 3 within 700 cases, shrunk to set_status(205); write(1 byte); flush())
 """
 from hypothesis import strategies as st
 
@@ -52,8 +57,10 @@ from vlib import respmodel as rm
 PROPERTY = "C02"
 READY = True
 RULE = (
-    "Hypothesis: handler program of <=8 ops (1/3 free op lists, 2/3 structured header-ops/body-ops/"
-    "terminal/trailing-ops) x method GET/HEAD/POST x HTTP/1.0|1.1 x Connection absent/close/keep-alive x "
+    "Hypothesis: handler program of <=8 ops (1/4 free op lists, 1/2 structured header-ops/body-ops/terminal/"
+    "trailing-ops, 1/4 template 'body-capable status (19-code pool or any 2xx-5xx except 204/304); non-empty "
+    "write; flush; up to 3 more write/flush/finish') x method GET/HEAD/POST x HTTP/1.0|1.1 x Connection "
+    "absent/close/keep-alive x "
     "If-None-Match none/match/weak/star/list/other x request segmentation; non-trivial = flush before "
     "finish, or status 1xx/204/304, or HEAD, or HTTP/1.0; distinct = SHA-1 of the case"
 )
@@ -97,7 +104,10 @@ dict_chunk = st.dictionaries(
 )
 chunk_s = weighted((6, small_bytes), (2, fill), (1, text_chunk), (1, dict_chunk))
 
-STATUS_COMMON = [200, 204, 206, 301, 304, 404, 500, 204, 304, 100, 101, 102, 103, 199, 201, 299, 418, 599]
+STATUS_COMMON = [200, 204, 206, 301, 304, 404, 500, 204, 304, 100, 101, 102, 103, 199, 201, 299, 418, 599,
+                 203, 205, 207, 226, 300, 400, 410, 451, 503]
+# statuses that can carry a body (everything but 1xx/204/304), used by the flush-before-finish template
+BODY_STATUS_POOL = [200, 201, 202, 203, 205, 206, 207, 226, 300, 301, 302, 400, 404, 410, 418, 451, 500, 503, 599]
 status_s = weighted((3, st.sampled_from(STATUS_COMMON)), (1, st.integers(100, 599)))
 reason_s = weighted(
     (3, st.none()),
@@ -156,6 +166,19 @@ structured_prog = st.tuples(
     st.lists(st.one_of(write_op, flush_op, finish_op, header_op), max_size=2),
 ).map(lambda t: (t[0] + t[1] + t[2] + t[3])[:8])
 
+# A status that can carry a body, then a non-empty write that is flushed before finish: the framing of
+# the streamed response must not depend on which body-capable status it is.
+body_status_s = weighted((4, st.sampled_from(BODY_STATUS_POOL)),
+                         (1, st.integers(200, 599).filter(lambda c: c not in (204, 304))))
+nonempty_chunk = weighted((3, st.binary(min_size=1, max_size=12)), (1, fill))
+flush_status_prog = st.tuples(
+    st.lists(header_op, max_size=1),
+    st.tuples(st.just("status"), body_status_s, st.none()).map(lambda t: [t]),
+    st.tuples(st.just("write"), nonempty_chunk).map(lambda t: [t]),
+    flush_op.map(lambda t: [t]),
+    st.lists(weighted((3, write_op), (2, flush_op), (1, finish_op)), max_size=3),
+).map(lambda t: (t[0] + t[1] + t[2] + t[3] + t[4])[:8])
+
 case_s = st.fixed_dictionaries(
     {
         "method": st.sampled_from(["GET", "GET", "HEAD", "POST"]),
@@ -163,7 +186,7 @@ case_s = st.fixed_dictionaries(
         "conn": st.sampled_from([None, None, "close", "keep-alive", "Keep-Alive"]),
         "inm": st.sampled_from(["none", "none", "none", "match", "match", "weak", "star", "list", "other"]),
         "post_body": st.binary(max_size=12),
-        "prog": weighted((1, free_prog), (2, structured_prog)),
+        "prog": weighted((2, free_prog), (4, structured_prog), (2, flush_status_prog)),
         "segments": st.one_of(st.none(), st.lists(st.integers(1, 40), min_size=1, max_size=6)),
     }
 )
@@ -237,6 +260,8 @@ def run_case(ctx, case):
         labels.add("error_page")
     if exp.flushed_early:
         labels.add("flush_before_finish")
+        if exp.status is not None and not exp.bodyless_status and exp.status not in (200, 404, 500):
+            labels.add("flush_unusual_body_status")
     labels |= exp.labels
     app_te = "transfer-encoding" in exp.touched
     if app_te:
